@@ -16,12 +16,16 @@ def plan(tier, seed):
     hs = [dict(name="k_cv_alias_identity", family="alias", timeout=900, mem_gb=10, replay=CV.replay_curve, rk="all", curve="BT1886",
                obligation="ST 170M, ST 240M, BT.2020-10/12 are bit-identical to BT.1886 in both directions; Linear is the bit-exact identity",
                sym="x: all 2^32 f32 bit patterns (powf/expf replaced on both sides by one pure argument-sensitive stand-in)", covers=["NaN explored"]),
-          dict(name="k_cv_segments", family="segments", timeout=1200, mem_gb=10, replay=CV.replay_curve, rk="all", curve="SRGB",
+          ]
+    if thorough:
+        hs.append(dict(name="k_cv_segments", family="segments", timeout=3000, mem_gb=10, replay=CV.replay_curve, rk="all", curve="SRGB",
                obligation="arithmetic segments against their defining formulas: sRGB linear parts, HLG below the knee (x^2/3, sqrt(3x), round trip on [0,0.5]), log curves clip to 0",
-               sym="x: every f32 in [0,1]", covers=["upper range explored"])]
+               sym="x: every f32 in [0,1] with <= 10 significant mantissa bits", covers=["upper range explored"]))
     for name in CURVES:
         for tl in (True, False):
-            use = [x for x in pts if (tl or CV.gamma_domain_ok(name, x))]
+            # PQ: 4 fast-powf evaluations per direction (~5 s of SAT time per input): smaller grid in the quick tier
+            base = pts if (thorough or name != "PQ") else CV.grid(2)
+            use = [x for x in base if (tl or CV.gamma_domain_ok(name, x))]
             for c in range(0, len(use), chunk):
                 sub = use[c:c + chunk]
                 n, code = CV.acc_harness(name, tl, sub, c // chunk)
@@ -33,10 +37,20 @@ def plan(tier, seed):
                                covers=["last grid point explored"]))
     txt += CV.EPILOGUE
     p.modules.append(("src/lib.rs", txt))
+    p.modules.append(("src/yuv_rgb/transfer.rs", CV.formula_module()))
+    names = ["BT1886", "ST170M", "ST240M", "BT2020Ten", "BT2020Twelve", "BT470M", "BT470BG", "SRGB", "XVYCC", "Log100", "Log316", "PQ", "HLG", "Linear"]
+    for i, nm in enumerate(names):
+        for d in ("lin", "gam"):
+            if d == "gam" and nm == "HLG":
+                continue     # sqrt / ln on both branches: nothing to compare bit for bit (numeric check in k_cv_segments)
+            hs.append(dict(name="k_cv_formula_%s_%d" % (d, i), family="formula", timeout=1500, mem_gb=10, replay=CV.replay_formula, mode=d, ti=i,
+                           obligation="formula-level differential, %s %s: for every f32 input the real dispatch + curve code is bit-identical to a reference model re-transcribed from the curve's definition (exponent, knee, branch order, constants), powf/expf replaced on both sides by one pure stand-in%s" % (
+                               nm, "gamma->linear" if d == "lin" else "linear->gamma", " (branches through log10 excluded)" if (d == "gam" and nm.startswith("Log")) else ""),
+                           sym="x: all 2^32 bit patterns", covers=[]))
     p.harnesses = hs
     p.functions = ["TransferFunction::to_linear / to_gamma and all 18 scalar curves + image_transfer_fn! (src/yuv_rgb/transfer.rs)", "yuvxyb_math::powf / expf / exp2 / log2 (real, in the accuracy harnesses)",
                    "LinearRgb::try_from(Rgb), Rgb::try_from((LinearRgb, TC, CP)) (public API, 1-pixel images)"]
-    p.bounds = ["aliases / identity: all 2^32 inputs; arithmetic segments: every f32 in [0,1]",
+    p.bounds = ["aliases / identity: all 2^32 inputs; arithmetic segments (thorough tier): every f32 in [0,1] with <= 10 mantissa bits", "formula-level differential: 14 curves x 2 directions; all 2^32 inputs for the division-free curves, inputs with <= 10 significant mantissa bits (all exponents and signs) for sRGB/xvYCC/PQ/HLG whose formulas divide",
                 "accuracy vs the defining formulas: inputs with <= %d significant mantissa bits in [2^-12, 1) plus 0 and 1 (%d inputs per curve and direction); oracle = Python decimal (40 digits) evaluation of the H.273 / BT.2100 formulas" % (g, len(pts))]
     p.outside = ["inputs with more mantissa bits than the grid (the property's 1,065,353,217 inputs per curve): ~0.1-0.3 s of SAT time per input",
                  "linear->gamma of Log100, Log316 above their thresholds and of HLG above 1/12: evaluated through log10/ln, which Kani over-approximates"]
